@@ -187,7 +187,307 @@ def gen_error_codes(info):
 
 
 # ------------------------------------------------------------------------------------------------
-GENERATORS = [gen_error_codes]
+def _strip_comments_keep_lines(src):
+    """like strip_comments but every removed block keeps its newlines, so offsets map to source lines"""
+    src = re.sub(r"/\*.*?\*/", lambda m: "\n" * m.group(0).count("\n"), src, flags=re.S)
+    return re.sub(r"//[^\n]*", "", src)
+
+
+def _enclosing_fn(src, pos):
+    """(name, parameter text, offset of the body's opening brace) of the last `fn` that starts before pos"""
+    last = None
+    for m in re.finditer(r"\bfn\s+(\w+)\s*(?:<[^{;]*?>)?\s*\(", src[:pos]):
+        last = m
+    if last is None:
+        return None, "", 0
+    depth, j = 0, last.end() - 1
+    while j < len(src):
+        if src[j] == "(":
+            depth += 1
+        elif src[j] == ")":
+            depth -= 1
+            if depth == 0:
+                break
+        j += 1
+    body = src.find("{", j)
+    return last.group(1), src[last.end() : j], body
+
+
+def _balanced_arg(src, open_paren):
+    depth = 0
+    for j in range(open_paren, len(src)):
+        if src[j] == "(":
+            depth += 1
+        elif src[j] == ")":
+            depth -= 1
+            if depth == 0:
+                return src[open_paren + 1 : j]
+    return None
+
+
+def _resolve_guard_arg(expr, fn_name, fn_params, fn_text_before, depth=0):
+    """what a `ConnectionGuard::new(<expr>)` argument denotes:
+    ("cfg", field) | ("param", fn, name) | ("lit", n) | ("unknown", text)"""
+    e = expr.strip()
+    while True:
+        e2 = re.sub(r"\s+as\s+(usize|u32|u64)$", "", e).strip()
+        if e2.startswith("(") and e2.endswith(")") and _balanced_arg(e2, 0) == e2[1:-1]:
+            e2 = e2[1:-1].strip()
+        if e2 == e:
+            break
+        e = e2
+    m = re.fullmatch(r"(?:\w+\.)*server_cfg\.(\w+)", e)
+    if m:
+        return ("cfg", m.group(1))
+    if re.fullmatch(r"\d+(_?\d+)*(usize|u32)?", e):
+        return ("lit", int(re.sub(r"[^0-9]", "", re.sub(r"(usize|u32)$", "", e))))
+    if re.fullmatch(r"[a-z_]\w*", e) and depth < 4:
+        lets = list(re.finditer(r"\blet\s+(?:mut\s+)?" + re.escape(e) + r"\s*(?::[^=;]+)?=\s*([^;]+);", fn_text_before))
+        if lets:
+            return _resolve_guard_arg(lets[-1].group(1), fn_name, fn_params, fn_text_before[: lets[-1].start()], depth + 1)
+        if re.search(r"(?:^|[,(\s])" + re.escape(e) + r"\s*:", fn_params):
+            return ("param", fn_name, e)
+    return ("unknown", re.sub(r"\s+", " ", e))
+
+
+def gen_conn_wiring(info):
+    """C11: which configuration value sizes the connection guard at every construction site, the
+    public knob that feeds it, the single acquisition point and the refusal status."""
+    rel = "server/src/server.rs"
+    raw = read(rel)
+    src = _strip_comments_keep_lines(raw)
+    problems = []
+
+    def lean_str(s):
+        return '"' + s.replace("\\", "\\\\").replace('"', '\\"') + '"'
+
+    sites = []
+    for m in re.finditer(r"ConnectionGuard::new\s*\(", src):
+        arg = _balanced_arg(src, m.end() - 1)
+        fn_name, fn_params, body_at = _enclosing_fn(src, m.start())
+        line = src.count("\n", 0, m.start()) + 1
+        if arg is None or fn_name is None:
+            problems.append(f"ConnectionGuard::new at line {line}: cannot delimit argument / enclosing fn")
+            continue
+        res = _resolve_guard_arg(arg, fn_name, fn_params, src[body_at : m.start()])
+        if res[0] == "unknown":
+            problems.append(f"ConnectionGuard::new at line {line}: unrecognised argument {res[1]!r}")
+        sites.append((line, fn_name, res))
+    if not sites:
+        problems.append("no ConnectionGuard::new(..) site found in server/src/server.rs")
+
+    # setter flows: `pub fn <name>(mut self, <p>: u32) -> Self { self.<field> = <p>; self }`
+    setter_flows = []
+    for m in re.finditer(r"pub fn (\w+)\s*\(\s*mut self\s*,\s*(\w+)\s*:\s*u32\s*\)\s*->\s*Self\s*\{\s*self\.(\w+)\s*=\s*(\w+)\s*;\s*self\s*\}", src):
+        if m.group(2) == m.group(4):
+            setter_flows.append((m.group(1), m.group(3), m.group(2)))
+    # ServerConfigBuilder::build : `ServerConfig { field: self.field, ... }`
+    build_flows = []
+    bm = re.search(r"pub fn build\s*\(\s*self\s*\)\s*->\s*ServerConfig\s*\{", src)
+    if bm:
+        body = find_block(src[bm.end() - 1 :], r"\{") or ""
+        lit = find_block(body, r"ServerConfig\s*\{") or ""
+        for fm in re.finditer(r"(\w+)\s*:\s*self\.(\w+)\s*,", lit):
+            build_flows.append((fm.group(1), fm.group(2)))
+    else:
+        problems.append("ServerConfigBuilder::build not found")
+
+    # acquisition points and what happens when no permit is available
+    acquires = []
+    for m in re.finditer(r"(\w+)\.try_acquire\s*\(\s*\)", src):
+        fn_name, _, _ = _enclosing_fn(src, m.start())
+        line = src.count("\n", 0, m.start()) + 1
+        stmt_start = src.rfind(";", 0, m.start()) + 1
+        stmt = src[stmt_start : m.end() + 200]
+        em = re.match(r"\s*let\s+Some\s*\(\s*(\w+)\s*\)\s*=\s*\w+\.try_acquire\s*\(\s*\)\s*else\s*\{", stmt)
+        refusal = "unknown"
+        if em:
+            eb = find_block(stmt[em.end() - 1 :], r"\{") or ""
+            rm = re.search(r"return\s+async\s+move\s*\{\s*Ok\s*\(\s*(?:\w+::)*(\w+)\s*\(\s*\)\s*\)\s*\}", eb)
+            if rm:
+                refusal = rm.group(1)
+        if refusal == "unknown":
+            problems.append(f"try_acquire at line {line}: refusal branch not recognised")
+        acquires.append((line, fn_name or "?", refusal))
+    if not acquires:
+        problems.append("no try_acquire() call found in server/src/server.rs")
+
+    # status code of every response constructor named as a refusal
+    rel_http = "server/src/transport/http.rs"
+    http_src = strip_comments(read(rel_http))
+    status_of = {}
+    for name in sorted({a[2] for a in acquires if a[2] != "unknown"}):
+        blk = find_block(http_src, r"pub fn " + re.escape(name) + r"\s*\(\s*\)\s*->\s*HttpResponse\s*\{")
+        sm = re.search(r"StatusCode::(\w+)", blk or "")
+        if sm:
+            status_of[name] = sm.group(1)
+        else:
+            problems.append(f"{rel_http}: status of {name}() not recognised")
+    status_num = {"TOO_MANY_REQUESTS": 429, "FORBIDDEN": 403, "OK": 200, "SERVICE_UNAVAILABLE": 503}
+
+    # future.rs: the guard's semaphore is sized by the constructor argument and `max` records it
+    rel_fut = "server/src/future.rs"
+    fut = strip_comments(read(rel_fut))
+    gimpl = find_block(fut, r"impl ConnectionGuard\s*\{") or ""
+    nm = re.search(r"pub fn new\s*\(\s*(\w+)\s*:\s*usize\s*\)\s*->\s*Self\s*\{\s*Self\s*\{\s*inner\s*:\s*Arc::new\s*\(\s*Semaphore::new\s*\(\s*([^()]+?)\s*\)\s*\)\s*,\s*max\s*:\s*([^,}]+?)\s*,?\s*\}\s*\}", gimpl)
+    if nm:
+        guard_new = (nm.group(1), nm.group(2).strip(), nm.group(3).strip())
+    else:
+        guard_new = ("?", "?", "?")
+        problems.append(f"{rel_fut}: ConnectionGuard::new body not recognised")
+    am = re.search(r"pub fn try_acquire\s*\(\s*&self\s*\)\s*->\s*Option<ConnectionPermit>\s*\{\s*match\s+self\.inner\.clone\(\)\.try_acquire_owned\(\)\s*\{", gimpl)
+    av = re.search(r"pub fn available_connections\s*\(\s*&self\s*\)\s*->\s*usize\s*\{\s*self\.inner\.available_permits\(\)\s*\}", gimpl)
+    if not am:
+        problems.append(f"{rel_fut}: try_acquire is not `self.inner.clone().try_acquire_owned()`")
+    if not av:
+        problems.append(f"{rel_fut}: available_connections is not `self.inner.available_permits()`")
+
+    ok = not problems
+
+    def src_lean(r):
+        if r[0] == "cfg":
+            return f".cfgField {lean_str(r[1])}"
+        if r[0] == "param":
+            return f".setterParam {lean_str(r[1])} {lean_str(r[2])}"
+        if r[0] == "lit":
+            return f".literal {r[1]}"
+        return f".unknown {lean_str(r[1])}"
+
+    L = []
+    L.append("/- GENERATED by /verif/tools/translate.py from server/src/server.rs, server/src/future.rs,")
+    L.append("   server/src/transport/http.rs — do not edit. -/")
+    L.append("namespace Jrpc.Gen")
+    L.append("")
+    L.append(f"def connWiringTranslatorOk : Bool := {'true' if ok else 'false'}")
+    L.append("")
+    L.append("/-- what the argument of a `ConnectionGuard::new(..)` call denotes -/")
+    L.append("inductive GuardSrc where")
+    L.append("  | cfgField (field : String)                 -- `…server_cfg.<field> [as usize]` (possibly via a local `let`)")
+    L.append("  | setterParam (fn : String) (param : String) -- the `u32` parameter of the enclosing builder method")
+    L.append("  | literal (n : Nat)")
+    L.append("  | unknown (expr : String)")
+    L.append("  deriving DecidableEq, Repr")
+    L.append("")
+    L.append("structure GuardSite where")
+    L.append("  line : Nat")
+    L.append("  encl : String")
+    L.append("  src : GuardSrc")
+    L.append("  deriving DecidableEq, Repr")
+    L.append("")
+    L.append("/-- every `ConnectionGuard::new(..)` in server/src/server.rs -/")
+    L.append("def connGuardSites : List GuardSite := [")
+    L.append(",\n".join(f"  {{ line := {ln}, encl := {lean_str(fn)}, src := {src_lean(r)} }}" for ln, fn, r in sites))
+    L.append("]")
+    L.append("")
+    L.append("/-- builder setters `pub fn f(mut self, p: u32) -> Self { self.<field> = p; self }` as (fn, field, param) -/")
+    L.append("def cfgSetterFlows : List (String × String × String) := [")
+    L.append(",\n".join(f"  ({lean_str(a)}, {lean_str(b)}, {lean_str(c)})" for a, b, c in setter_flows))
+    L.append("]")
+    L.append("")
+    L.append("/-- `ServerConfigBuilder::build`: (ServerConfig field, builder field it is copied from) -/")
+    L.append("def cfgBuildFlows : List (String × String) := [")
+    L.append(",\n".join(f"  ({lean_str(a)}, {lean_str(b)})" for a, b in build_flows))
+    L.append("]")
+    L.append("")
+    L.append("/-- every `try_acquire()` call in server.rs: (line, enclosing fn, response constructor returned when no permit) -/")
+    L.append("def tryAcquireSites : List (Nat × String × String) := [")
+    L.append(",\n".join(f"  ({ln}, {lean_str(fn)}, {lean_str(rf)})" for ln, fn, rf in acquires))
+    L.append("]")
+    L.append("")
+    L.append("/-- HTTP status of the refusal constructors (transport/http.rs) -/")
+    L.append("def refusalStatus : List (String × Nat) := [")
+    L.append(",\n".join(f"  ({lean_str(k)}, {status_num.get(v, 0)})" for k, v in sorted(status_of.items())))
+    L.append("]")
+    L.append("")
+    L.append("/-- `ConnectionGuard::new(<param>)`: (parameter, semaphore size expression, `max` field expression) -/")
+    L.append(f"def guardNewShape : String × String × String := ({lean_str(guard_new[0])}, {lean_str(guard_new[1])}, {lean_str(guard_new[2])})")
+    L.append("")
+    L.append("end Jrpc.Gen")
+    write_if_changed(os.path.join(GEN, "ConnWiring.lean"), "\n".join(L) + "\n")
+    info["ConnWiring"] = {
+        "source": f"{rel} (ConnectionGuard::new at lines {[s[0] for s in sites]}, try_acquire at lines {[a[0] for a in acquires]}); {rel_fut} (ConnectionGuard impl); {rel_http} (refusal status)",
+        "ok": ok,
+        "problems": problems,
+        "sites": [[ln, fn, list(r)] for ln, fn, r in sites],
+        "acquires": [list(a) for a in acquires],
+        "refusal_status": status_of,
+        "guard_new": list(guard_new),
+    }
+
+
+# ------------------------------------------------------------------------------------------------
+def gen_default_ports(info):
+    """C14: `fn default_port(scheme: Option<&str>) -> Option<u16>` in authority.rs -> scheme/port table."""
+    rel = "server/src/middleware/http/authority.rs"
+    src = strip_comments(read(rel))
+    problems = []
+    table = []  # (scheme string, port) in source order, first match wins
+    default_none = False
+    m = re.search(r"fn default_port\(\s*(\w+)\s*:\s*Option<&str>\s*\)\s*->\s*Option<u16>\s*\{", src)
+    body = None
+    if not m:
+        problems.append("fn default_port(scheme: Option<&str>) -> Option<u16> not found")
+    else:
+        fn_body = find_block(src, r"fn default_port\(\s*\w+\s*:\s*Option<&str>\s*\)\s*->\s*Option<u16>\s*\{")
+        # the function body must be exactly one `match <param> { ... }`
+        mm = re.fullmatch(r"\s*match\s+" + re.escape(m.group(1)) + r"\s*\{(.*)\}\s*", fn_body or "", flags=re.S)
+        if not mm:
+            problems.append("default_port body is not a single `match scheme { .. }`")
+        else:
+            body = mm.group(1)
+    if body is not None:
+        arms = [a.strip() for a in body.split(",") if a.strip()]
+        for k, arm in enumerate(arms):
+            ma = re.fullmatch(r'((?:Some\("[^"\\]*"\)\s*\|\s*)*Some\("[^"\\]*"\))\s*=>\s*Some\((\d+)\)', arm)
+            md = re.fullmatch(r"_\s*=>\s*None", arm)
+            if md:
+                if k != len(arms) - 1:
+                    problems.append("default arm `_ => None` is not the last arm")
+                default_none = True
+            elif ma:
+                port = int(ma.group(2))
+                if port > 65535:
+                    problems.append(f"port out of u16 range in arm {arm!r}")
+                for s in re.findall(r'Some\("([^"\\]*)"\)', ma.group(1)):
+                    table.append((s, port))
+            else:
+                problems.append(f"default_port: unrecognised arm {arm!r}")
+        if not default_none:
+            problems.append("default_port: no `_ => None` arm")
+    # the call site must fold exactly `default_port(uri.scheme_str())` against the parsed port
+    if not re.search(r"match\s+default_port\(\s*uri\.scheme_str\(\)\s*\)\s*\{\s*Some\((\w+)\)\s+if\s+\1\s*==\s*port_u16\s*=>\s*Port::Default\s*,\s*_\s*=>\s*port_u16\.into\(\)\s*,?\s*\}", src):
+        problems.append("call site `match default_port(uri.scheme_str()) { Some(p) if p == port_u16 => Port::Default, _ => port_u16.into() }` not found")
+    ok = not problems
+    L = []
+    L.append("/- GENERATED by /verif/tools/translate.py from server/src/middleware/http/authority.rs — do not edit. -/")
+    L.append("namespace Jrpc.Gen")
+    L.append("")
+    L.append(f"def defaultPortsTranslatorOk : Bool := {'true' if ok else 'false'}")
+    L.append("")
+    L.append("/-- arms of `fn default_port` in source order: scheme (Unicode code points) ↦ port; anything else ↦ `None` -/")
+    L.append("def defaultPortTable : List (List Nat × Nat) := [")
+    L.append(",\n".join(f"  ([{', '.join(str(ord(ch)) for ch in s)}], {p})  /- {s} -/" for s, p in table))
+    L.append("]")
+    L.append("")
+    L.append("/-- the same table with readable scheme names -/")
+    L.append("def defaultPortNames : List (String × Nat) := [" + ", ".join(f'("{s}", {p})' for s, p in table) + "]")
+    L.append("")
+    L.append("def lookupPort (s : List Nat) : List (List Nat × Nat) → Option Nat")
+    L.append("  | [] => none")
+    L.append("  | e :: r => if e.1 == s then some e.2 else lookupPort s r")
+    L.append("")
+    L.append("/-- `fn default_port(scheme: Option<&str>) -> Option<u16>` (first matching arm wins, `_ => None`) -/")
+    L.append("def defaultPort : Option (List Nat) → Option Nat")
+    L.append("  | none => none")
+    L.append("  | some s => lookupPort s defaultPortTable")
+    L.append("")
+    L.append("end Jrpc.Gen")
+    write_if_changed(os.path.join(GEN, "DefaultPorts.lean"), "\n".join(L) + "\n")
+    info["DefaultPorts"] = {"source": rel, "ok": ok, "problems": problems, "table": table}
+
+
+# ------------------------------------------------------------------------------------------------
+GENERATORS = [gen_error_codes, gen_conn_wiring, gen_default_ports]
 
 
 def main():
